@@ -11,8 +11,7 @@ def run(ctx):
     q = ctx.quick
     ctx.mc("MC_PointsTable", "MC_PointsTable" if q else "MC_PointsTable_thorough", workers=8, timeout=1800, note="algebraic laws of the table semantics over all small tables (round trip, get/select commute, join assoc., space product)")
     if ctx.replay:
-        scen = [json.load(open(ctx.replay))["trace"]["scenario"]]
-        scen[0].pop("tid", None)
+        scen = ctx.replay_scenarios()
     else:
         scen = ctx.gen("Gen_C12", "Gen_C12_exh")
         scen += ctx.gen("Gen_C12", "Gen_C12_sim", simulate="num=%d" % (300 if q else 4000), depth=12)
